@@ -42,6 +42,9 @@ func (c17) Info(t core.Tier) core.Info {
 func (c17) NumCases(t core.Tier) int { return tierN(t, 30000, 800000) }
 
 func (c17) RunCase(c *core.Ctx) {
+	if c.Case%97 == 23 && !w10(c, "C17") {
+		return
+	}
 	switch c.Case % 3 {
 	case 0:
 		c17Chain(c)
